@@ -835,10 +835,16 @@ fn main() {
         let first = pool.run_batch(&tasks);
         let mut more: Vec<Task> = Vec::new();
         for (t, x) in tasks.iter().zip(first.iter()) {
-            if let Some(i) = x.points.iter().position(|q| q.kind.starts_with("G3")) {
-                for merge in 1..3usize {
+            // every alternative of every tie-order (G2, G4) and merge-timing (G3) point of the
+            // policy run: one deviation each (a commit that leaves several equal-sized segments
+            // is ordered by a randomly seeded HashMap in the real crate)
+            for (i, q) in x.points.iter().enumerate() {
+                if !(q.kind.starts_with("G2") || q.kind.starts_with("G3") || q.kind.starts_with("G4")) {
+                    continue;
+                }
+                for alt in 1..q.options {
                     let mut pre: Vec<usize> = x.points[..i].iter().map(|q| q.chosen).collect();
-                    pre.push(merge);
+                    pre.push(alt);
                     more.push(Task { scenario: si, prefix: pre, policy: t.policy.clone() });
                 }
             }
